@@ -1072,42 +1072,63 @@ def opExchangeBatch (p : Path) (fo : FilterObj) (extra : List RelID) (add rem : 
   preCheck p add rels
   exchangeBatch run fo extra add rem rels vals
 
-/-- `setRelationsTable`. -/
-def setRelationsTable (oldT : Nat) (oldLen : Nat) (rels : List RelID) (withFn : Bool) : W Unit := do
+/-- `relationsMove` of `setRelationsBatch`. -/
+structure RelMove where
+  oldT : Nat
+  newT : Nat
+  len : Nat
+  start : Nat := 0
+  changeMask : Mask
+  deriving Inhabited
+
+/-- `prepareRelationsMove`: find or create the destination table of one source table. -/
+def prepareRelationsMove (oldT : Nat) (oldLen : Nat) (rels : List RelID) : W (Option RelMove) := do
   let w ← M.get
   let (newRels, changed, changeMask) ← getExchangeTargets (w.tbl oldT) rels
-  if !changed then return
+  if !changed then return none
   let a := (w.tbl oldT).arch
   let newT ← match ← getTable a newRels with
     | some t => pure t
     | none => createTable a newRels
-  let w ← M.get
-  let newMask := (w.arch (w.tbl newT).arch).mask
-  if w.obs.hasObservers Ev.onRemoveRelations then
-    let O := w.tbl oldT
-    fireRows (fun e eo => fireSet run Ev.onRemoveRelations e changeMask newMask eo)
-      ((List.range O.len).map O.getEntity)
-  let start := (← M.get).tbl newT |>.len
-  moveEntities oldT newT oldLen
-  if withFn then batchFn newT start oldLen []
-  let w ← M.get
-  if w.obs.hasObservers Ev.onAddRelations then
-    let N := w.tbl newT
-    fireRows (fun e eo => fireSet run Ev.onAddRelations e changeMask newMask eo)
-      ((List.range oldLen).map fun i => N.getEntity (start + i))
+  pure (some { oldT, newT, len := oldLen, changeMask })
 
-/-- `setRelationsBatch`. -/
+/-- `setRelationsBatch`: collect the moves, fire all removal events, move, fire all addition
+    events. -/
 def setRelationsBatch (fo : FilterObj) (extra : List RelID) (rels : List RelID) (withFn : Bool) : W Unit := do
   checkLocked
   M.assert (!rels.isEmpty) .noRelations
   let l ← lock
   let tables ← getBatchTables fo extra
-  let w ← M.get
-  let lengths := tables.map fun t => (w.tbl t).len
-  for (t, n) in tables.zip lengths do
+  let mut moves : List RelMove := []
+  for t in tables do
+    let n := (← M.get).tbl t |>.len
     if n == 0 then continue
-    setRelationsTable run t n rels withFn
+    match ← prepareRelationsMove t n rels with
+    | some mv => moves := moves ++ [mv]
+    | none => pure ()
+  let w ← M.get
+  if w.obs.hasObservers Ev.onRemoveRelations then
+    for mv in moves do
+      let w ← M.get
+      let O := w.tbl mv.oldT
+      let newMask := (w.arch (w.tbl mv.newT).arch).mask
+      fireRows (fun e eo => fireSet run Ev.onRemoveRelations e mv.changeMask newMask eo)
+        ((List.range mv.len).map O.getEntity)
+  let mut moved : List RelMove := []
+  for mv in moves do
+    let start := (← M.get).tbl mv.newT |>.len
+    moveEntities mv.oldT mv.newT mv.len
+    if withFn then batchFn mv.newT start mv.len []
+    moved := moved ++ [{ mv with start }]
   registerTargets rels
+  let w ← M.get
+  if w.obs.hasObservers Ev.onAddRelations then
+    for mv in moved do
+      let w ← M.get
+      let N := w.tbl mv.newT
+      let newMask := (w.arch N.arch).mask
+      fireRows (fun e eo => fireSet run Ev.onAddRelations e mv.changeMask newMask eo)
+        ((List.range mv.len).map fun i => N.getEntity (mv.start + i))
   unlock l
 
 def opSetRelationsBatch (p : Path) (fo : FilterObj) (extra : List RelID) (mapperIds : List Comp)
